@@ -19,11 +19,11 @@ open VL VL.STV
 
 /-- a list of individually elected candidates as a selection result (the selector never returns a tie object:
     an unresolved tie is the refusal `NotImplementedError`) -/
-def asSlots (l : List Cand) : List Slot := l.map Slot.cand
+def stvSlots (l : List Cand) : List Slot := l.map Slot.cand
 
-theorem selShape_of_cands {cands l : List Cand} {n : Nat} (hlen : l.length = n) (hnd : l.Nodup)
-    (hsub : ∀ c ∈ l, c ∈ cands) : SelShape cands n (asSlots l) := by
-  unfold asSlots
+theorem stv_selShape_of_cands {cands l : List Cand} {n : Nat} (hlen : l.length = n) (hnd : l.Nodup)
+    (hsub : ∀ c ∈ l, c ∈ cands) : SelShape cands n (stvSlots l) := by
+  unfold stvSlots
   refine ⟨by rw [List.length_map]; exact hlen, ?_, ?_, ?_, ?_, ?_⟩
   · intro c hc
     obtain ⟨d, hd, he⟩ := List.mem_map.mp hc
@@ -39,13 +39,13 @@ theorem selShape_of_cands {cands l : List Cand} {n : Nat} (hlen : l.length = n) 
     all of them candidates of the votes, nobody twice, and never a tie object. -/
 theorem stv_shape {E : Engine} (hE : EngineOK E) {cfg : Cfg} {votes : Profile} {n : Nat} {ds : List Draw}
     {l : List Cand} (h : selectorEvaluate E cfg votes n ds = .ok l) :
-    SelShape (allRanked votes) n (asSlots l) := by
+    SelShape (allRanked votes) n (stvSlots l) := by
   obtain ⟨h1, h2, h3⟩ := C04.result_shape hE h
-  exact selShape_of_cands h1 h2 h3
+  exact stv_selShape_of_cands h1 h2 h3
 
 /-- the instance C08 runs: Gregory transfer -/
 theorem stv_gregory_shape {cfg : Cfg} {votes : Profile} {n : Nat} {ds : List Draw} {l : List Cand}
-    (h : selectorEvaluate gregory cfg votes n ds = .ok l) : SelShape (allRanked votes) n (asSlots l) :=
+    (h : selectorEvaluate gregory cfg votes n ds = .ok l) : SelShape (allRanked votes) n (stvSlots l) :=
   stv_shape gregory_ok h
 
 /-! ## the run: every count makes progress, so the fuel of the model is never exhausted -/
@@ -62,18 +62,18 @@ theorem sumSeats_pos_of_ones {el : Seats} (hne : el ≠ []) (h : ∀ ck ∈ el, 
 def stvMeasure (inp : Input) (st : St) : Nat :=
   if st.final then 0 else 1 + (inp.nSeats - sumSeats st.seats) + (continuing st.alloc).length
 
-theorem final_false_of_ne {cfg : Cfg} {inp : Input} {st : St} (hi : StInv cfg inp st)
+theorem stv_final_false_of_ne {cfg : Cfg} {inp : Input} {st : St} (hi : StInv cfg inp st)
     (hne : sumSeats st.seats ≠ inp.nSeats) : st.final = false := by
   cases hf : st.final with
   | false => rfl
   | true => exact absurd (hi.fin hf) hne
 
 /-- every executed count elects somebody, removes somebody, or is the last one -/
-theorem step_decreases {E : Engine} (hE : EngineOK E) {cfg : Cfg} {inp : Input} {st st' : St}
+theorem stv_step_decreases {E : Engine} (hE : EngineOK E) {cfg : Cfg} {inp : Input} {st st' : St}
     (hi : StInv cfg inp st) (h : countStep E cfg inp st = .ok (some st')) :
     stvMeasure inp st' < stvMeasure inp st := by
   obtain ⟨hne, out, ds', hnext, hnp, hadv⟩ := countStep_inv h
-  have hfin := final_false_of_ne hi hne
+  have hfin := stv_final_false_of_ne hi hne
   have hk := hi.keys hfin
   subst hadv
   obtain ⟨hle, hcase⟩ := nextCount_cases hnext
@@ -136,7 +136,7 @@ theorem runCounts_finished {E : Engine} (hE : EngineOK E) {cfg : Cfg} {inp : Inp
       injection h with h; subst h
       exact countStep_none hnone
     · rename_i st1 hstep
-      have := step_decreases hE (reach_inv hE hr) hstep
+      have := stv_step_decreases hE (reach_inv hE hr) hstep
       exact ih st1 st' (.step hr hstep) (by omega) h
 
 theorem runCounts_error {E : Engine} {cfg : Cfg} {inp : Input} {ds : List Draw} {e : Err} :
@@ -156,7 +156,7 @@ theorem runCounts_error {E : Engine} {cfg : Cfg} {inp : Input} {ds : List Draw} 
     · rename_i st1 hstep
       exact ih st1 (.step hr hstep) h
 
-theorem initial_measure {E : Engine} (hE : EngineOK E) {inp : Input} {ds : List Draw} {st0 : St}
+theorem stv_initial_measure {E : Engine} (hE : EngineOK E) {inp : Input} {ds : List Draw} {st0 : St}
     (h0 : initState E inp ds = .ok st0) : stvMeasure inp st0 < evalFuel inp := by
   obtain ⟨_, hf0, _, _⟩ := initState_inv (cfg := ⟨none, true, false, none⟩) hE h0
   have hc0 : continuing st0.alloc = allRanked inp.votes := by
@@ -191,7 +191,7 @@ theorem distributorEvaluate_error {E : Engine} (hE : EngineOK E) {cfg : Cfg} {in
     | ok st =>
       rw [hk] at h
       simp only at h
-      have hfin := runCounts_finished hE _ st0 st (.init h0) (initial_measure hE h0) hk
+      have hfin := runCounts_finished hE _ st0 st (.init h0) (stv_initial_measure hE h0) hk
       have : finished inp st = true := by simp [finished, hfin]
       rw [this] at h
       simp [pure, Except.pure] at h
@@ -203,7 +203,7 @@ theorem stv_fuel_unreachable {E : Engine} (hE : EngineOK E) (cfg : Cfg) (inp : I
     ∀ st0 st, initState E inp ds = .ok st0 → runCounts E cfg inp (evalFuel inp) st0 = .ok st →
       finished inp st = true := by
   intro st0 st h0 hk
-  have hfin := runCounts_finished hE _ st0 st (.init h0) (initial_measure hE h0) hk
+  have hfin := runCounts_finished hE _ st0 st (.init h0) (stv_initial_measure hE h0) hk
   simp [finished, hfin]
 
 /-! ## what a count under Gregory transfer can answer besides a new state -/
@@ -213,18 +213,18 @@ def errNegativeRemaining : Err := .other "unmodelled:negative remaining seats"
 def errNegativeAvailable : Err := .other "unmodelled:negative available seats"
 
 /-- the error outcomes of one `next_count` under Gregory transfer, each with the condition it arises under -/
-inductive CountErr (cfg : Cfg) (a : Alloc) (n : Nat) (total : Rat) (prev maxS : Seats) : Err → Prop
+inductive StvCountErr (cfg : Cfg) (a : Alloc) (n : Nat) (total : Rat) (prev maxS : Seats) : Err → Prop
   /-- an unresolved tie (`_correct_overcount`, `select_retained`) -/
-  | tie : CountErr cfg a n total prev maxS .notImplemented
+  | tie : StvCountErr cfg a n total prev maxS .notImplemented
   /-- `eliminate_step=None` without a retainer -/
-  | noStep : cfg.step = none → CountErr cfg a n total prev maxS .valueError
+  | noStep : cfg.step = none → StvCountErr cfg a n total prev maxS .valueError
   /-- the quota function returned a non-positive value (outside the model: Python divides by it) -/
-  | quota (q : Rat) : computeQuota cfg total n = some q → q ≤ 0 → CountErr cfg a n total prev maxS errNonPositiveQuota
+  | quota (q : Rat) : computeQuota cfg total n = some q → q ≤ 0 → StvCountErr cfg a n total prev maxS errNonPositiveQuota
   /-- more seats awarded than asked for (outside the model) -/
-  | over : n < sumSeats prev → CountErr cfg a n total prev maxS errNegativeRemaining
+  | over : n < sumSeats prev → StvCountErr cfg a n total prev maxS errNegativeRemaining
   /-- the elect-all shortcut with a candidate above its maximum (outside the model) -/
   | avail (p : Cand × Option Int) (k : Int) : p ∈ availSeats a prev maxS → p.2 = some k → k < 0 →
-      shortcutCond cfg a n prev maxS = true → CountErr cfg a n total prev maxS errNegativeAvailable
+      shortcutCond cfg a n prev maxS = true → StvCountErr cfg a n total prev maxS errNegativeAvailable
 
 theorem gregory_afterElimination_err {a : Alloc} {step : Option Int} {ds : List Draw} {e : Err}
     (h : afterElimination gregory a step ds = .error e) :
@@ -263,7 +263,7 @@ theorem gregory_afterElection_ok {a : Alloc} (hk : KeysNodup a) {eq : Bool} {qv 
 
 theorem gregory_nextCount_err {cfg : Cfg} {a : Alloc} (hk : KeysNodup a) {n : Nat} {total : Rat} {prev maxS : Seats}
     {ds : List Draw} {e : Err} (h : nextCount gregory cfg a n total prev maxS ds = .error e) :
-    CountErr cfg a n total prev maxS e := by
+    StvCountErr cfg a n total prev maxS e := by
   unfold nextCount at h
   split at h
   · rename_i hgt
@@ -313,12 +313,12 @@ theorem gregory_nextCount_err {cfg : Cfg} {a : Alloc} (hk : KeysNodup a) {n : Na
 /-- one iteration of the counting loop: the declared "infinite loop" refusal, or an outcome of `next_count` -/
 theorem gregory_countStep_err {cfg : Cfg} {inp : Input} {st : St} {e : Err}
     (hi : StInv cfg inp st) (h : countStep gregory cfg inp st = .error e) :
-    e = .votingSystemError ∨ CountErr cfg st.alloc inp.nSeats (totalVotes inp.votes) st.seats inp.maxS e := by
+    e = .votingSystemError ∨ StvCountErr cfg st.alloc inp.nSeats (totalVotes inp.votes) st.seats inp.maxS e := by
   unfold countStep at h
   split at h
   · cases h
   · rename_i hne
-    have hk := hi.keys (final_false_of_ne hi hne)
+    have hk := hi.keys (stv_final_false_of_ne hi hne)
     split at h
     · rename_i e' herr
       injection h with h; subst h
@@ -332,7 +332,7 @@ theorem gregory_countStep_err {cfg : Cfg} {inp : Input} {st : St} {e : Err}
 theorem gregory_evaluate_err {cfg : Cfg} {inp : Input} {ds : List Draw} {e : Err}
     (h : distributorEvaluate gregory cfg inp ds = .error e) :
     e = .votingSystemError ∨ ∃ st, Reach gregory cfg inp ds st ∧ sumSeats st.seats ≠ inp.nSeats ∧ st.final = false ∧
-      CountErr cfg st.alloc inp.nSeats (totalVotes inp.votes) st.seats inp.maxS e := by
+      StvCountErr cfg st.alloc inp.nSeats (totalVotes inp.votes) st.seats inp.maxS e := by
   rcases distributorEvaluate_error gregory_ok h with h0 | ⟨st, hr, hstep⟩
   · obtain ⟨st, hst⟩ := gregory_initState_ok inp ds
     rw [hst] at h0; cases h0
@@ -344,7 +344,21 @@ theorem gregory_evaluate_err {cfg : Cfg} {inp : Input} {ds : List Draw} {e : Err
         unfold countStep at hstep
         rw [if_pos heq] at hstep
         cases hstep
-      exact Or.inr ⟨st, hr, hne, final_false_of_ne hi hne, h1⟩
+      exact Or.inr ⟨st, hr, hne, stv_final_false_of_ne hi hne, h1⟩
+
+/-- in particular the model's fuel value `Err.other "fuel"` is not an outcome (selector or distributor form) -/
+theorem stv_gregory_no_fuel (cfg : Cfg) (inp : Input) (ds : List Draw) :
+    distributorEvaluate gregory cfg inp ds ≠ .error (.other "fuel") := by
+  intro h
+  rcases gregory_evaluate_err h with h1 | ⟨st, _, _, _, hc⟩
+  · cases h1
+  · generalize he : Err.other "fuel" = e at hc
+    cases hc with
+    | tie => cases he
+    | noStep _ => cases he
+    | quota _ _ _ => exact absurd he (by decide)
+    | over _ => exact absurd he (by decide)
+    | avail _ _ _ _ _ _ => exact absurd he (by decide)
 
 /-! ## Family 1: the selector — refusals -/
 
@@ -368,7 +382,7 @@ theorem selector_sum_le {E : Engine} (hE : EngineOK E) {cfg : Cfg} {votes : Prof
     have hj := shape_reach hE hr'
     have hi' := step_inv hE hi h
     obtain ⟨hne, out, ds', hnext, _, hadv⟩ := countStep_inv h
-    have hfin := final_false_of_ne hi hne
+    have hfin := stv_final_false_of_ne hi hne
     subst hadv
     have hk := hi.keys hfin
     have hsub := hi.cont_sub
@@ -460,7 +474,7 @@ theorem stv_default_total {cfg : Cfg} {votes : Profile} {n : Nat} (hstep : cfg.s
     (hmand : cfg.mandatory = false) (hq : ∀ q, computeQuota cfg (totalVotes votes) n = some q → 0 < q)
     (hn : n ≤ (allRanked votes).length) (ds : List Draw) :
     selectorEvaluate gregory cfg votes n ds = .error .notImplemented ∨
-    ∃ l, selectorEvaluate gregory cfg votes n ds = .ok l ∧ SelShape (allRanked votes) n (asSlots l) := by
+    ∃ l, selectorEvaluate gregory cfg votes n ds = .ok l ∧ SelShape (allRanked votes) n (stvSlots l) := by
   rcases selector_total ⟨hstep, hmand, hq⟩ hn ds with h1 | ⟨l, h1⟩
   · exact Or.inl h1
   · exact Or.inr ⟨l, h1, stv_gregory_shape h1⟩
@@ -518,11 +532,11 @@ theorem keys_seatsAdd1 (s : Seats) (c : Cand) (k : Nat) :
       · simp [hm, hc']
 
 /-- a result dict under construction: positive awards, no key twice, keys are candidates of the votes -/
-def GoodSeats (cands : List Cand) (s : Seats) : Prop :=
+def StvGoodSeats (cands : List Cand) (s : Seats) : Prop :=
   (∀ p ∈ s, 0 < p.2) ∧ (s.map (·.1)).Nodup ∧ ∀ p ∈ s, p.1 ∈ cands
 
-theorem goodSeats_add1 {cands : List Cand} {s : Seats} (h : GoodSeats cands s) {c : Cand} {k : Nat} (hk : 0 < k)
-    (hc : c ∈ cands) : GoodSeats cands (seatsAdd1 s c k) := by
+theorem stvGoodSeats_add1 {cands : List Cand} {s : Seats} (h : StvGoodSeats cands s) {c : Cand} {k : Nat} (hk : 0 < k)
+    (hc : c ∈ cands) : StvGoodSeats cands (seatsAdd1 s c k) := by
   refine ⟨?_, ?_, ?_⟩
   · intro p hp
     rcases mem_seatsAdd1 hp with hp | ⟨_, hp⟩
@@ -541,8 +555,8 @@ theorem goodSeats_add1 {cands : List Cand} {s : Seats} (h : GoodSeats cands s) {
     · exact h.2.2 p hp
     · rw [hp]; exact hc
 
-theorem goodSeats_add {cands : List Cand} {add : Seats} (hadd : ∀ p ∈ add, 0 < p.2 ∧ p.1 ∈ cands) :
-    ∀ s : Seats, GoodSeats cands s → GoodSeats cands (seatsAdd s add) := by
+theorem stvGoodSeats_add {cands : List Cand} {add : Seats} (hadd : ∀ p ∈ add, 0 < p.2 ∧ p.1 ∈ cands) :
+    ∀ s : Seats, StvGoodSeats cands s → StvGoodSeats cands (seatsAdd s add) := by
   unfold seatsAdd
   induction add with
   | nil => intro s hs; exact hs
@@ -550,7 +564,7 @@ theorem goodSeats_add {cands : List Cand} {add : Seats} (hadd : ∀ p ∈ add, 0
     intro s hs
     rw [List.foldl_cons]
     exact ih (fun p hp => hadd p (List.mem_cons_of_mem _ hp)) _
-      (goodSeats_add1 hs (hadd x List.mem_cons_self).1 (hadd x List.mem_cons_self).2)
+      (stvGoodSeats_add1 hs (hadd x List.mem_cons_self).1 (hadd x List.mem_cons_self).2)
 
 theorem availSeats_nil (a : Alloc) (prev : Seats) :
     availSeats a prev [] = ((sortDesc (totalsInPlay a)).map (·.1)).map (fun c => (c, (none : Option Int))) := by
@@ -581,7 +595,7 @@ theorem shortcutCond_nil {cfg : Cfg} {a : Alloc} {n : Nat} {prev : Seats} (hle :
 
 /-- distributor form: the seats dict stays a valid result dict -/
 theorem dist_goodSeats {E : Engine} (hE : EngineOK E) {cfg : Cfg} {votes : Profile} {n : Nat} {ds : List Draw} {st : St}
-    (hr : Reach E cfg (distInput votes n) ds st) : GoodSeats (allRanked votes) st.seats := by
+    (hr : Reach E cfg (distInput votes n) ds st) : StvGoodSeats (allRanked votes) st.seats := by
   induction hr with
   | init h0 =>
     obtain ⟨_, _, hs, _⟩ := initState_inv (cfg := cfg) hE h0
@@ -590,7 +604,7 @@ theorem dist_goodSeats {E : Engine} (hE : EngineOK E) {cfg : Cfg} {votes : Profi
   | @step st st' hr' h ih =>
     have hi := reach_inv hE hr'
     obtain ⟨hne, out, ds', hnext, _, hadv⟩ := countStep_inv h
-    have hfin := final_false_of_ne hi hne
+    have hfin := stv_final_false_of_ne hi hne
     subst hadv
     have hk := hi.keys hfin
     have hsub := hi.cont_sub
@@ -603,7 +617,7 @@ theorem dist_goodSeats {E : Engine} (hE : EngineOK E) {cfg : Cfg} {votes : Profi
       obtain ⟨_, _, _, _, he1, _, _⟩ := afterElection_inv hout
       obtain ⟨_, hfacts⟩ := election_facts hk hpos hel
       rw [he1]
-      exact goodSeats_add (fun p hp => ⟨(hfacts p hp).2.1, hsub _ (hfacts p hp).1⟩) _ ih
+      exact stvGoodSeats_add (fun p hp => ⟨(hfacts p hp).2.1, hsub _ (hfacts p hp).1⟩) _ ih
     | elimination _ hout =>
       obtain ⟨_, _, _, _, he1, _⟩ := afterElimination_inv hout
       rw [he1]
@@ -636,14 +650,14 @@ theorem distributorEvaluate_ok {E : Engine} {cfg : Cfg} {inp : Input} {ds : List
       · cases hd
 
 /-- the result dict `{candidate: seats}` as a distribution over keys -/
-def asDist (s : Seats) : List (Key × Nat) := s.map (fun p => (Key.cand p.1, p.2))
+def stvDist (s : Seats) : List (Key × Nat) := s.map (fun p => (Key.cand p.1, p.2))
 
 /-- **TransferableVoteDistributor, shape** (`evaluate(votes, n)`; any transferer meeting the specification, any
     configuration, any profile, any seat number): a returned dict awards positive numbers of seats to candidates of
     the votes (never a tie object), holds no candidate twice, and the awards add up to exactly `n`. -/
 theorem stvd_shape {E : Engine} (hE : EngineOK E) {cfg : Cfg} {votes : Profile} {n : Nat} {ds : List Draw}
     {seats : Seats} (h : distributorEvaluate E cfg (distInput votes n) ds = .ok seats) :
-    DistShape (allRanked votes) (asDist seats) ∧ (seats.map (·.1)).Nodup ∧ sumSeats seats = n := by
+    DistShape (allRanked votes) (stvDist seats) ∧ (seats.map (·.1)).Nodup ∧ sumSeats seats = n := by
   obtain ⟨st, hr, hsum, rfl⟩ := distributorEvaluate_ok h
   obtain ⟨hpos, hnd, hsub⟩ := dist_goodSeats hE hr
   refine ⟨⟨?_, ?_, ?_⟩, hnd, hsum⟩
@@ -663,7 +677,7 @@ theorem stvd_shape {E : Engine} (hE : EngineOK E) {cfg : Cfg} {votes : Profile} 
 
 theorem stvd_gregory_shape {cfg : Cfg} {votes : Profile} {n : Nat} {ds : List Draw} {seats : Seats}
     (h : distributorEvaluate gregory cfg (distInput votes n) ds = .ok seats) :
-    DistShape (allRanked votes) (asDist seats) ∧ (seats.map (·.1)).Nodup ∧ sumSeats seats = n :=
+    DistShape (allRanked votes) (stvDist seats) ∧ (seats.map (·.1)).Nodup ∧ sumSeats seats = n :=
   stvd_shape gregory_ok h
 
 /-! ### distributor: refusals -/
@@ -678,14 +692,14 @@ theorem reach_byQuota {E : Engine} (hE : EngineOK E) {cfg : Cfg} {inp : Input} {
   | @step st st' hr' h ih =>
     have hi := reach_inv hE hr'
     obtain ⟨hne, out, ds', _, _, hadv⟩ := countStep_inv h
-    have hfin := final_false_of_ne hi hne
+    have hfin := stv_final_false_of_ne hi hne
     subst hadv
     intro hf
     simp only [advance] at hf
     simp only [advance, hf, sumSeats_seatsAdd, ih hfin, Bool.false_eq_true, if_false]
     omega
 
-theorem held_nonneg {a : Alloc} (hn : NonNeg a) : 0 ≤ held a := by
+theorem stv_held_nonneg {a : Alloc} (hn : NonNeg a) : 0 ≤ held a := by
   induction a with
   | nil => simp [held]
   | cons x xs ih =>
@@ -706,7 +720,7 @@ theorem dist_sum_le {E : Engine} (hE : EngineOK E) {cfg : Cfg} {votes : Profile}
   | false =>
     have hcons := hi.cons hf
     have hb := reach_byQuota hE hr hf
-    have hheld := held_nonneg (hi.nonneg hwf hf)
+    have hheld := stv_held_nonneg (hi.nonneg hwf hf)
     have hempty := emptyWeight_nonneg hwf
     have hrq : runQuota cfg (distInput votes n) = q := by
       simp [runQuota, quotaValue, distInput, hq]
@@ -792,8 +806,8 @@ theorem stv_hare_refusals {cfg : Cfg} {votes : Profile} {n : Nat} {ds : List Dra
 /-! ## witnesses of the excluded outcomes, and non-vacuity -/
 
 section Witness
-def cfgDroop : Cfg := { quota := some Gen.Quota.droop, acceptEqual := true, mandatory := false, step := some (-1) }
-def cfgHare : Cfg := { quota := some Gen.Quota.hare, acceptEqual := true, mandatory := false, step := some (-1) }
+def stvCfgDroop : Cfg := { quota := some Gen.Quota.droop, acceptEqual := true, mandatory := false, step := some (-1) }
+def stvCfgHare : Cfg := { quota := some Gen.Quota.hare, acceptEqual := true, mandatory := false, step := some (-1) }
 
 /-- **Finding (rounded quotas).**  Full statement that fails: `stv_refusals` without `hq`.  One voter ranking four
     candidates, three seats, `quota_function='hare_rounded'` (or `'hagenbach_bischoff_rounded'`): the quota is
@@ -802,16 +816,16 @@ def cfgHare : Cfg := { quota := some Gen.Quota.hare, acceptEqual := true, mandat
     `1 ≤ n ≤ #candidates`). -/
 theorem stv_refusals_quota_zero_witness :
     WFVotes [([.one 0, .one 1, .one 2, .one 3], 1)] ∧ 3 ≤ (allRanked [([.one 0, .one 1, .one 2, .one 3], 1)]).length ∧
-    selectorEvaluate gregory { cfgDroop with quota := some Gen.Quota.hare_rounded }
+    selectorEvaluate gregory { stvCfgDroop with quota := some Gen.Quota.hare_rounded }
       [([.one 0, .one 1, .one 2, .one 3], 1)] 3 [] = .error errNonPositiveQuota ∧
-    selectorEvaluate gregory { cfgDroop with quota := some Gen.Quota.hagenbach_bischoff_rounded }
+    selectorEvaluate gregory { stvCfgDroop with quota := some Gen.Quota.hagenbach_bischoff_rounded }
       [([.one 0, .one 1, .one 2, .one 3], 1)] 3 [] = .error errNonPositiveQuota := by
   refine ⟨by unfold WFVotes; decide +kernel, by decide +kernel, by decide +kernel, by decide +kernel⟩
 
 /-- full statement that fails: `stv_refusals` without `hstep` — `eliminate_step=None` without a retainer raises
     `ValueError` as soon as somebody has to be eliminated -/
 theorem stv_refusals_no_step_witness :
-    selectorEvaluate gregory { cfgDroop with step := none } [([.one 0, .one 1, .one 2], 1), ([.one 1], 1)] 1 [] =
+    selectorEvaluate gregory { stvCfgDroop with step := none } [([.one 0, .one 1, .one 2], 1), ([.one 1], 1)] 1 [] =
       .error .valueError := by decide +kernel
 
 /-- full statement that fails of the MODEL: `stvd_refusals` without `hbig`.  Imperiali quota 10/4, two seats, one
@@ -819,37 +833,37 @@ theorem stv_refusals_no_step_witness :
     candidates that are not among the best): three seats for a house of two.  The model stops here (outside its
     domain); the Python loop goes on and ends in `VotingSystemError('infinite loop in STV')`. -/
 theorem stvd_refusals_over_award_witness :
-    distributorEvaluate gregory { cfgDroop with quota := some Gen.Quota.imperiali }
+    distributorEvaluate gregory { stvCfgDroop with quota := some Gen.Quota.imperiali }
       (distInput [([.one 0, .one 1, .one 2], 9), ([.one 1], 1)] 2) [] = .error errNegativeRemaining := by
   decide +kernel
 end Witness
 
 section Example
 /-- a>b ×10, b ×3, c ×4, c>b ×1 (C03's example): two seats -/
-def shVotes : Profile := [([.one 0, .one 1], 10), ([.one 1], 3), ([.one 2], 4), ([.one 2, .one 1], 1)]
+def stvExVotes : Profile := [([.one 0, .one 1], 10), ([.one 1], 3), ([.one 2], 4), ([.one 2, .one 1], 1)]
 
-example : WFVotes shVotes := by unfold WFVotes; decide +kernel
+example : WFVotes stvExVotes := by unfold WFVotes; decide +kernel
 -- `stv_shape` / `stv_default_total`: a list is returned
-example : selectorEvaluate gregory cfgDroop shVotes 2 [] = .ok [0, 1] ∧ 1 ≤ 2 ∧ 2 ≤ (allRanked shVotes).length := by
+example : selectorEvaluate gregory stvCfgDroop stvExVotes 2 [] = .ok [0, 1] ∧ 1 ≤ 2 ∧ 2 ≤ (allRanked stvExVotes).length := by
   decide +kernel
-example : selectorEvaluate gregory cfgHare shVotes 2 [] = .ok [0, 2] := by decide +kernel
+example : selectorEvaluate gregory stvCfgHare stvExVotes 2 [] = .ok [0, 2] := by decide +kernel
 -- `stv_default_refusals`, `stv_droop_refusals`: the refusal occurs (a>b>c ×3, b>a>c ×3, c ×5; one seat)
-example : selectorEvaluate gregory cfgDroop C04.cVotes 1 [] = .error .notImplemented ∧
-    cfgDroop.step = some (-1) ∧ cfgDroop.mandatory = false ∧ 1 ≤ (allRanked C04.cVotes).length := by decide +kernel
+example : selectorEvaluate gregory stvCfgDroop C04.cVotes 1 [] = .error .notImplemented ∧
+    stvCfgDroop.step = some (-1) ∧ stvCfgDroop.mandatory = false ∧ 1 ≤ (allRanked C04.cVotes).length := by decide +kernel
 -- `stv_refusals`: `VotingSystemError` occurs with `mandatory_quota` (a ×2, b ×1, two seats, Droop quota 2)
-example : selectorEvaluate gregory { cfgDroop with mandatory := true } [([.one 0], 2), ([.one 1], 1)] 2 [] =
-    .error .votingSystemError ∧ ({ cfgDroop with mandatory := true } : Cfg).step ≠ none := by decide +kernel
-example : ∀ q, computeQuota { cfgDroop with mandatory := true } (totalVotes [([.one 0], 2), ([.one 1], 1)]) 2 = some q →
+example : selectorEvaluate gregory { stvCfgDroop with mandatory := true } [([.one 0], 2), ([.one 1], 1)] 2 [] =
+    .error .votingSystemError ∧ ({ stvCfgDroop with mandatory := true } : Cfg).step ≠ none := by decide +kernel
+example : ∀ q, computeQuota { stvCfgDroop with mandatory := true } (totalVotes [([.one 0], 2), ([.one 1], 1)]) 2 = some q →
     0 < q := stv_quota_pos_droop rfl (by unfold WFVotes; decide +kernel) 2
 -- … and with more seats than candidates
-example : selectorEvaluate gregory cfgDroop [([.one 0], 1)] 2 [] = .error .votingSystemError := by decide +kernel
+example : selectorEvaluate gregory stvCfgDroop [([.one 0], 1)] 2 [] = .error .votingSystemError := by decide +kernel
 -- `stvd_shape`: a dict is returned; one candidate may hold several seats
-example : distributorEvaluate gregory cfgDroop (distInput [([.one 0, .one 1, .one 2], 5), ([.one 1], 4)] 2) [] =
+example : distributorEvaluate gregory stvCfgDroop (distInput [([.one 0, .one 1, .one 2], 5), ([.one 1], 4)] 2) [] =
     .ok [(0, 1), (1, 1)] := by decide +kernel
-example : distributorEvaluate gregory cfgDroop (distInput [([.one 0, .one 1], 8), ([.one 1], 1)] 2) [] =
+example : distributorEvaluate gregory stvCfgDroop (distInput [([.one 0, .one 1], 8), ([.one 1], 1)] 2) [] =
     .ok [(0, 2)] := by decide +kernel
 -- `stvd_refusals` / `stvd_droop_refusals`: the refusal occurs (nobody is ever removed for being elected)
-example : distributorEvaluate gregory cfgDroop (distInput [([.one 0, .one 1, .one 2], 5), ([.one 1], 1)] 2) [] =
+example : distributorEvaluate gregory stvCfgDroop (distInput [([.one 0, .one 1, .one 2], 5), ([.one 1], 1)] 2) [] =
     .error .votingSystemError ∧ WFVotes [([.one 0, .one 1, .one 2], 5), ([.one 1], 1)] ∧
     0 < totalVotes [([.one 0, .one 1, .one 2], 5), ([.one 1], 1)] := by
   refine ⟨by decide +kernel, by unfold WFVotes; decide +kernel, by decide +kernel⟩
